@@ -1061,9 +1061,9 @@ func substr(fn parser.Function, args []value.Primary, zeroBasedIndex bool) (valu
 		if sublen < 0 {
 			return value.NewNull(), nil
 		}
-		end = start + sublen
-		if strlen < end {
-			end = strlen
+		// start + sublen may not fit into an integer.
+		if sublen < strlen-start {
+			end = start + sublen
 		}
 	}
 
